@@ -251,4 +251,12 @@ example : U32 0 ∧ U32 4294967295 ∧
 example : NoPrefix ([1, 1, 97, 0] : Bytes) [1, 1, 97, 98, 0] := by
   constructor <;> decide
 
+/-- a key of a later, not prefix-related datum lies beyond the version bracket of an earlier datum (what lets a
+    range scan close a datum's group when it sees the key: C05 `versionedRange_eq_groups`) -/
+theorem later_datum_beyond_bracket (i v' c' : Nat) (tk tk' : Bytes) (m' : Bool) (hp : NoPrefix tk' tk)
+    (hgt : cmpBytes tk' tk = .gt) : cmpBytes (dataKey i v' c' tk' m') (maxVersionKey i tk) = .gt := by
+  rw [dataKey_eq, maxVersionKey_eq]
+  simp only [List.append_assoc, cmpBytes_append_left]
+  rw [(cmpBytes_append_noPrefix hp _ _).1]; exact hgt
+
 end Dvid.Props.C06
